@@ -1,6 +1,6 @@
 (* C18 correspondence: observed behaviour of the real configuration layer against the model.
    Records, marshal / unmarshal / Complete come from gen/GenCfgMsg.v (today's source). *)
-From FRP Require Export Corr.Common Model.Literals Model.CfgMsg Model.Validate Model.Template Model.FlagsCheck Model.StrictLoad.
+From FRP Require Export Corr.Common Model.Literals Model.CfgMsg Model.Validate Model.Template Model.FlagsCheck Model.StrictLoad Model.ValidateSections.
 Open Scope Z_scope.
 
 (* the float oracle as a finite table filled by the harness with what strconv.ParseFloat and
@@ -96,6 +96,10 @@ Inductive case :=
 (* loads that ran CONCURRENTLY in one process (real config.LoadConfigure from several goroutines): for each,
    its strict argument, unknown key at the top level?, per nested typed element unknown key?, rejected? *)
 | CLoadTrace (entries : list (bool * bool * list bool * bool))
+(* real ValidateServerConfig / ValidateClientCommonConfig / ValidateVisitorConfigurer: accepted? *)
+| CValServerCfg (c : ServerConfig) (accepted : bool)
+| CValClientCommon (c : ClientCommonConfig) (accepted : bool)
+| CValVisitor (b : VisitorBaseConfig) (xtcp_protocol : option bytes) (accepted : bool)
 (* real frps flag set: --dashboard_tls_mode <arg> with the cert and key file flags: parse error?, webServer.tls *)
 | CTlsFlag (arg cert key : bytes) (parse_err : bool) (tls : option TLSConfig).
 
@@ -185,6 +189,13 @@ Definition check_case (c : case) : Z :=
       if forallb (fun e : bool * bool * list bool * bool =>
                     let '(st, top, nested, rej) := e in Bool.eqb rej (sl_verdict (mk_sl_load st top nested))) entries
       then 0 else 95
+  | CValServerCfg c accepted =>
+      if negb (Bool.eqb (vs_server_ok c) accepted) then 101
+      else if accepted && negb (forallb (fun np : string * Z => val_port (snd np)) (vs_server_ports c)) then 104 else 0
+  | CValClientCommon c accepted =>
+      if negb (Bool.eqb (vs_client_ok c) accepted) then 102
+      else if accepted && negb (forallb (fun np : string * Z => val_port (snd np)) (vs_client_ports c)) then 104 else 0
+  | CValVisitor b xp accepted => if Bool.eqb (vs_visitor_ok b xp) accepted then 0 else 103
   | CTlsFlag arg cert key parse_err tls =>
       match flags_web_tls arg cert key with
       | None => if parse_err then 0 else 91
@@ -234,3 +245,7 @@ Definition load_trace_strict_rejections (c : case) : Z :=
   | _ => 0
   end.
 Fixpoint sum_Z {A} (f : A -> Z) (l : list A) : Z := match l with [] => 0 | x :: r => f x + sum_Z f r end.
+Definition is_section_rejected (c : case) : bool :=
+  match c with CValServerCfg _ false | CValClientCommon _ false | CValVisitor _ _ false => true | _ => false end.
+Definition is_section_accepted (c : case) : bool :=
+  match c with CValServerCfg _ true | CValClientCommon _ true | CValVisitor _ _ true => true | _ => false end.
